@@ -43,6 +43,7 @@ class Ctx:
         self.violations = []     # (signature, replay path, text)
         self.known_hits = []
         self.notes = []
+        self.beyond = []         # deviations from parts of the specification that lie beyond the property's statement: reported, never a violation
         self.assumptions = []
         self.extra = {}
         self.lock = threading.Lock()
@@ -81,6 +82,12 @@ class Ctx:
             self.violations.append((signature, path, text))
             return True
 
+    def beyond_property(self, text):
+        """The implementation deviates from a part of the specification that models behaviour beyond the listed property (the specification
+        covers more of the system than the properties): an EXTRA-DEVIATION line and an evidence entry, no VIOLATION, exit status unaffected."""
+        with self.lock:
+            self.beyond.append(text)
+
     # -- finish ----------------------------------------------------------------------------
     def finish(self):
         wall = time.time() - self.t0
@@ -98,6 +105,8 @@ class Ctx:
         }
         if self.exhaustive is not None:
             cov["exhaustive"] = bool(self.exhaustive)
+        if self.beyond:
+            cov["beyond_property_deviations"] = self.beyond[:20]
         cov.update(self.extra)
         ev = {
             "property_id": self.pid, "tier": self.tier, "seed": int(self.seed), "level": self.level,
@@ -108,6 +117,8 @@ class Ctx:
         json.dump(ev, open(os.path.join(EVID, self.pid + ".json"), "w"), indent=1)
         for sig, what in self.known_hits:
             print("KNOWN-FINDING: property=%s %s (%s)" % (self.pid, sig, what))
+        for text in self.beyond[:5]:
+            print("EXTRA-DEVIATION check=%s (behaviour beyond the property's statement; not a violation of it) %s" % (self.pid, text[:400]))
         for sig, path, text in self.violations[:20]:
             print("VIOLATION property=%s replay=%s" % (self.pid, path))
             print("  " + text[:600])
